@@ -123,8 +123,9 @@ let rcname = function
   | RcTestFailed -> "testfail" | RcInvalidValue -> "ivalue" | RcPtr -> "badptr" | RcPatchInvalid -> "pinvalid"
   | RcBadOp -> "badop" | RcInvArgs -> "invargs" | RcNotImpl -> "notimpl" | RcCreation -> "creation" | RcUnmodelled -> "UNMODELLED"
 
-let rec has_none (Node (_, _, ty, _, _, ch)) = ty = TNone || (match ty with TArr | TObj -> List.exists has_none ch | _ -> false)
-let enc n = if has_none n then None else Some n
+(* the write-back step of the binary-form modes is the extracted writer (WriteBack.v: wb_store = _jbl_from_node_impl with the
+   member rule of the binn object); a document the binary form cannot hold is refused by jbl_from_json before any patch *)
+let storable n = (match wb_store n with Some _ -> true | None -> false)
 let dumpb n = match n_ty n with TNull -> "_" | _ -> dumps n      (* an emptied jbl and a jbl holding null are the same bytes *)
 let out_tree r t kl = Printf.sprintf "rc=%s doc=%s%s links=ok" (rcname r) (dumps t) (if kl then " kl=" ^ dump_kl t else "")
 
@@ -135,13 +136,14 @@ let handle = function
       if exact then (match n_ty pn with TArr -> decode_ops_exact (n_ch pn) | _ -> Inl RcPatchInvalid)
       else create_patch pn in
     (match mode with
+     | ("bs" | "bj") when not (storable doc) -> "docparse=creation"
      | "tn" | "bs" ->
        let pn = parse_json (str_of_hex ph) in
        (match ops_of_patch true pn with
         | Inl e -> "rc=" ^ rcname e
         | Inr ops ->
           if mode = "tn" then let (r, t) = patch_node fo doc ops in out_tree r t true
-          else let (r, b) = patch_binary (fun b -> b) enc zero_node fo doc ops in
+          else let (r, b) = jbl_patch_model fo doc ops in
             Printf.sprintf "rc=%s doc=%s%s" (rcname r) (dumpb b) (if r <> RcOk then Printf.sprintf " unchanged=%d" (if dumps b = dumps doc then 1 else 0) else ""))
      | "ta" ->
        let pn = parse_json (str_of_hex ph) in
@@ -149,7 +151,7 @@ let handle = function
      | "bj" ->
        let pn = parse_json (str_of_hex ph) in
        let (r, b) = (match n_ty pn with
-           | TArr -> (match create_patch pn with Inl e -> (e, doc) | Inr ops -> patch_binary (fun b -> b) enc zero_node fo doc ops)
+           | TArr -> (match create_patch pn with Inl e -> (e, doc) | Inr ops -> jbl_patch_model fo doc ops)
            | TObj -> (RcNotImpl, doc)
            | _ -> (RcPatchInvalid, doc)) in
        Printf.sprintf "rc=%s doc=%s%s" (rcname r) (dumpb b) (if r <> RcOk then Printf.sprintf " unchanged=%d" (if dumps b = dumps doc then 1 else 0) else "")
@@ -158,6 +160,8 @@ let handle = function
     let doc = parse_json (str_of_hex dh) in
     let patch = (try Some (parse_json (str_of_hex ph)) with Parse_error -> None) in
     (match mode, patch with
+     | ("bj" | "bb"), _ when not (storable doc) -> "docparse=creation"
+     | "bb", Some p when not (storable p) -> "patchparse=creation"
      | "tj", None -> Printf.sprintf "rc=parse doc=%s links=ok" (dumps doc)
      | "bj", None -> Printf.sprintf "rc=parse doc=%s unchanged=1" (dumps doc)
      | _, None -> "patchparse=parse"
@@ -174,7 +178,7 @@ let handle = function
            | Inl _ -> out_tree r (forget t) false ^ " CRASH free of the result"
            | Inr h2 -> out_tree r (forget t) false ^ Printf.sprintf " leak=%d" (if h_live h2 = [] then 0 else 1)))
      | ("bj" | "bb"), Some p ->
-       let (r, b) = merge_binary (fun b -> b) enc doc p in
+       let (r, b) = jbl_merge_model doc p in
        Printf.sprintf "rc=%s doc=%s unchanged=%d" (rcname r) (dumpb b) (if dumps b = dumps doc then 1 else 0)
      | _ -> "?")
   | ["mpath"; mode; dh; pathh; vh] ->
